@@ -31,14 +31,15 @@ def _exec_history(prog, keep_text=False):
     import rtflite as rtf
     tmp = tempfile.mkdtemp(prefix="rtflite-verif-hist-")
     objs = {}
-    shared = {"body": None}
+    shared = {}
     out = []
 
     def construct(dd):
-        if dd in ("share2", "share3"):
-            if shared["body"] is None:
-                shared["body"] = rtf.RTFBody()
-            objs[dd] = colordocs.build_pool_doc(dd, shared_body=shared["body"], tmpdir=tmp)
+        fam = colordocs.SHARED_FAMILY.get(dd)
+        if fam:
+            if fam not in shared:
+                shared[fam] = colordocs.new_shared_body(fam)
+            objs[dd] = colordocs.build_pool_doc(dd, shared_body=shared[fam], tmpdir=tmp)
         else:
             objs[dd] = colordocs.build_pool_doc(dd, tmpdir=tmp)
     try:
